@@ -410,6 +410,17 @@ def admission_scenario(rng, idx, tag):
     allp = [p["s"] for s in secrets for p in s["prefixes"]]
     deny = [prefix(p) for p in rng.sample(POOL4 + POOL6, rng.choice([0, 0, 1, 2]))]
     allow = [prefix(p) for p in rng.sample(POOL4 + POOL6, rng.choice([0, 0, 0, 1, 2]))]
+    NESTED = [("10.1.0.0/24", "10.1.0.0/16"), ("10.0.0.0/16", "10.0.0.0/8"), ("192.168.0.0/30", "192.168.0.0/16"), ("2001:db8::/64", "2001:db8::/32"),
+              ("10.1.2.0/25", "10.1.2.0/24")]
+    if rng.random() < 0.2:
+        # two prefixes of one list that share their network address, the narrow one first or last
+        pair = list(rng.choice(NESTED))
+        if rng.random() < 0.3:
+            pair.reverse()
+        if rng.random() < 0.6:
+            deny = [prefix(x) for x in pair] + deny[:1]
+        else:
+            allow = [prefix(x) for x in pair] + allow[:1]
     cfg = {"secrets": secrets, "users": users, "deny": deny, "allow": allow}
     cands = addr_candidates(rng, allp + [p["s"] for p in deny + allow])
     rng.shuffle(cands)
